@@ -116,7 +116,15 @@ func main() {
 	seed := flag.Int64("seed", 1, "seed")
 	dir := flag.String("dir", "", "scratch directory")
 	aht := flag.String("aht", "", "JSON file with AHT.tla behaviours (replay mode)")
+	conc := flag.Int("conc", 0, "rounds of the concurrent probe (proof generation racing with ResetSize + Append)")
 	flag.Parse()
+
+	if *conc > 0 {
+		res := vh.NewResult()
+		runConc(*seed, *dir, *conc, res)
+		res.Emit()
+		return
+	}
 
 	if *aht != "" {
 		res := vh.NewResult()
